@@ -1148,7 +1148,10 @@ func (p *Program) inlineOverlay() (map[string][]byte, []string) {
 						return true
 					}
 					lo, hi := in.off(ret.Results[0].Pos()), in.off(ret.Results[0].End())
-					text := "(" + applyEdits(src[lo:hi], lo, pe) + ")"
+					text := applyEdits(src[lo:hi], lo, pe)
+					if needsParens(ast.Unparen(ret.Results[0])) {
+						text = "(" + text + ")"
+					}
 					if strings.Contains(text, "\n") {
 						return true
 					}
@@ -1318,6 +1321,101 @@ func (p *Program) inlineOverlay() (map[string][]byte, []string) {
 					in.edits[callerFile] = append(in.edits[callerFile], inlEdit{in.off(lit.End()), in.off(lit.End()), "; _ = " + def.Lhs[0].(*ast.Ident).Name})
 				}
 			}
+		}
+		// expression helpers: a new function or method that is a single `return E`, every use of
+		// which in this package is a call: each call becomes (E) with receiver and parameters replaced
+		for _, hd := range AllFuncDecls(pkg) {
+			if !isNewHelper(hd) || hd.Type.Results == nil || len(hd.Type.Results.List) != 1 || len(hd.Type.Results.List[0].Names) > 0 || len(hd.Body.List) != 1 {
+				continue
+			}
+			ret, ok := hd.Body.List[0].(*ast.ReturnStmt)
+			if !ok || len(ret.Results) != 1 {
+				continue
+			}
+			hasLit := false
+			ast.Inspect(ret.Results[0], func(m ast.Node) bool {
+				if _, ok := m.(*ast.FuncLit); ok {
+					hasLit = true
+				}
+				return true
+			})
+			obj := in.info.Defs[hd.Name]
+			if hasLit || obj == nil {
+				continue
+			}
+			var calls []*ast.CallExpr
+			var callers []*ast.FuncDecl
+			uses, okAll := 0, true
+			for _, fd := range AllFuncDecls(pkg) {
+				if fd.Body == nil || fd == hd {
+					continue
+				}
+				ast.Inspect(fd.Body, func(m ast.Node) bool {
+					call, ok := m.(*ast.CallExpr)
+					if !ok {
+						return true
+					}
+					if calleeFuncObj(in.info, call) == obj {
+						calls = append(calls, call)
+						callers = append(callers, fd)
+					}
+					return true
+				})
+			}
+			for _, q := range p.All {
+				if q.TypesInfo == nil {
+					continue
+				}
+				for _, o := range q.TypesInfo.Uses {
+					if o == obj {
+						uses++
+					}
+				}
+			}
+			if uses != len(calls) || len(calls) == 0 {
+				continue
+			}
+			var edits []inlEdit
+			file := fileName(hd.Pos())
+			src := in.source(file)
+			for i, call := range calls {
+				b, args, ok := helperBody(hd, call)
+				if !ok || src == nil {
+					okAll = false
+					break
+				}
+				locals, okb := in.bodyOK(b)
+				callerFile := fileName(callers[i].Pos())
+				if !okb || len(locals) > 0 {
+					okAll = false
+					break
+				}
+				pe, ok := in.paramEdits(b, callerFile, args, locals)
+				if !ok || !in.freeVarsVisible(b, call.Pos(), locals) {
+					okAll = false
+					break
+				}
+				lo, hi := in.off(ret.Results[0].Pos()), in.off(ret.Results[0].End())
+				text := applyEdits(src[lo:hi], lo, pe)
+				if needsParens(ast.Unparen(ret.Results[0])) {
+					text = "(" + text + ")"
+				}
+				if strings.Contains(text, "\n") {
+					okAll = false
+					break
+				}
+				edits = append(edits, inlEdit{in.off(call.Pos()), in.off(call.End()), text})
+				_ = callerFile
+			}
+			if !okAll {
+				continue
+			}
+			for i, e := range edits {
+				cf := fileName(callers[i].Pos())
+				in.edits[cf] = append(in.edits[cf], e)
+			}
+			inlinedCalls[hd] += len(calls)
+			in.notes = append(in.notes, fmt.Sprintf("%s (an expression) inlined at %d call sites", FuncName(hd), len(calls)))
 		}
 		// a helper all of whose uses were inlined is not declared any more: the rules would read
 		// its body a second time, as a function nobody calls
